@@ -108,6 +108,9 @@ def main():
         except ImportError:
             continue
     for r in rest:
+        if isinstance(obj, property) and r in ('setter', 'getter'):
+            obj = obj.fset if r == 'setter' else obj.fget
+            continue
         obj = getattr(obj, r)
     if isinstance(obj, property):
         obj = obj.fget
